@@ -17,7 +17,8 @@ import random
 
 from .. import core
 from .. import lexer_util as lu
-from .c12 import check_records, four_cfgs, replay  # noqa: F401
+from .c12 import check_records, four_cfgs  # noqa: F401
+from .c12 import replay as _replay12
 
 JUNK_INV = ["C11_NormalizeAgrees", "C11_PlainVerbatim", "C39_LineAccurate", "C39_Lossless",
             "C12_VariableTagsUntouchedByOptions"]
@@ -33,6 +34,42 @@ def line_cfgs():
         out.append(lu.make_cfg("default", trim=t, lstrip=l, lsp="##", lcp="#", keep=True))
         out.append(lu.make_cfg("multi", trim=t, lstrip=l, lsp="@", lcp="//", nl="rn"))
     return out
+
+
+def check_extraction(ck, recs, by_name, limit):
+    """Message extraction relies on token positions: babel_extract must report every gettext call
+    of a generated source on the line the specification gives to that call's token."""
+    import io
+    from jinja2.ext import babel_extract
+
+    n = 0
+    for rec in recs:
+        if n >= limit:
+            break
+        if rec["out"] == "?" or rec["oc"][0] != "eof":
+            continue
+        src = rec["src"]
+        expected = [ln for ln, ty, s, e in rec["toks"] if ty == "atom" and src[s - 1:e - 1] == "V"]
+        if not expected:
+            continue
+        cfg = by_name[rec["cfg"]]
+        cmap = dict(lu.VARIANTS[lu.variant_of(rec["raw"])], V="_('V')")
+        source = lu.concretise(rec["raw"], cmap)
+        o = lu.env_options(cfg)
+        options = {k: v for k, v in o.items() if isinstance(v, str) and k != "newline_sequence"}
+        options.update({k: ("true" if o[k] else "false") for k in ("trim_blocks", "lstrip_blocks", "keep_trailing_newline")})
+        options["silent"] = "false"
+        try:
+            got = [(ln, msg) for ln, _f, msg, _c in babel_extract(io.BytesIO(source.encode("utf-8")), ("_",), (), options)]
+        except Exception as e:  # noqa
+            got = ["raise", type(e).__name__, str(e)[:200]]
+        n += 1
+        if got != [(ln, "V") for ln in expected]:
+            ck.violation({"kind": "c39-extract", "cfg": cfg, "source": source, "expected_lines": expected, "actual": got},
+                         f"{cfg['name']}: babel_extract({source!r}) reports {got!r}, the token lines are {expected!r}",
+                         {"kind": "extract-lineno", "cfg": cfg["name"], "raw": rec["raw"]})
+    ck.traces += n
+    ck.extra["babel_extract_cases"] = ck.extra.get("babel_extract_cases", 0) + n
 
 
 def run(ck):
@@ -84,6 +121,7 @@ def run(ck):
         if len(recs) != len(part):
             raise core.MachineryError(f"TLC finished {len(recs)} of {len(part)} cases")
         check_records(ck, recs, by_name, kind="c39")
+        check_extraction(ck, recs, by_name, 600 if quick else 6000)
         if quick:
             cov = dict(cov1)
             for a, v in r.coverage().items():
@@ -108,3 +146,19 @@ def run(ck):
         "the gaps between raw tokens are the whitespace removed on the LEFT of tags; whitespace removed on the right "
         "of a tag (\"-%}\", trim_blocks newline) is carried inside the value of that tag's end token",
     ]
+
+
+def replay(ck, rec):
+    c = rec["case"]
+    if c.get("kind") == "c39-extract":
+        import io
+        from jinja2.ext import babel_extract
+        o = lu.env_options(c["cfg"])
+        options = {k: v for k, v in o.items() if isinstance(v, str) and k != "newline_sequence"}
+        options.update({k: ("true" if o[k] else "false") for k in ("trim_blocks", "lstrip_blocks", "keep_trailing_newline")})
+        options["silent"] = "false"
+        got = [ln for ln, _f, _m, _c in babel_extract(io.BytesIO(c["source"].encode("utf-8")), ("_",), (), options)]
+        if got != c["expected_lines"]:
+            ck.violation(c, f"babel_extract still reports lines {got!r}", rec.get("fingerprint"))
+    else:
+        _replay12(ck, rec)
